@@ -34,13 +34,12 @@ Theorem js_inputs_listed_once : forall segs, NoDup (meta_order segs []).
 Proof. exact (fun segs => meta_order_nodup segs []). Qed.
 Print Assumptions js_inputs_listed_once.
 
-(* ... generateChunkCSS does not: one entry per compile result, so a CSS file
-   imported twice (with different conditions) gives a JSON object with a
-   repeated key *)
-Theorem css_inputs_listed_once_refuted :
-  exists prefix nf nc pathOf segs, ~ NoDup (map fst (css_output_inputs prefix nf nc pathOf segs)).
-Proof. exact css_inputs_keys_not_unique. Qed.
-Print Assumptions css_inputs_listed_once_refuted.
+(* ... and so does generateChunkCSS (a CSS file imported twice with different
+   conditions is one entry with the sum of its copies) *)
+Theorem css_inputs_listed_once : forall prefix nf nc pathOf segs,
+  NoDup (map fst (css_output_inputs prefix nf nc pathOf segs)).
+Proof. exact css_inputs_keys_unique. Qed.
+Print Assumptions css_inputs_listed_once.
 
 (* generateMetadataJSON lists every output path that has a metadata chunk
    exactly once, and the entry kept is the first one *)
@@ -55,26 +54,29 @@ Print Assumptions outputs_listed_once.
 (* ---- JSON layer ---- *)
 
 (* helpers.QuoteForJSON: for every byte string (control characters, quotation
-   marks, backslashes, U+2028/9, astral characters, WTF-8 surrogates, and with
-   asciiOnly also invalid bytes, read as U+FFFD) the RFC 8259 string parser
+   marks, backslashes, U+2028/9, astral characters, WTF-8 surrogates, invalid
+   bytes, which read as U+FFFD) and both charsets the RFC 8259 string parser
    reads the output back as exactly the UTF-16 units of the string, and stops
-   right after the closing quotation mark *)
+   right after the closing quotation mark (after fix 6fea80b there is no proviso) *)
 Theorem json_quote_roundtrip : forall ascii s rest,
-  bytes_ok s -> (ascii = true \/ wtf8_ok (length s) s = true) ->
+  bytes_ok s ->
   jstring (quote_for_json ascii s ++ rest) = Some (units s, rest).
 Proof. exact json_quote_roundtrip_all. Qed.
 Print Assumptions json_quote_roundtrip.
 
-(* without asciiOnly an invalid byte is copied: the output is not UTF-8, hence not JSON text *)
-Theorem json_quote_utf8_refuted : exists s, bytes_ok s /\ jstring (quote_for_json false s) = None.
-Proof. exact json_quote_utf8_refuted_wit. Qed.
-Print Assumptions json_quote_utf8_refuted.
+(* escapeFinalPath: a final path that is well-formed UTF-8 - whatever
+   quotation marks, backslashes and control characters it contains - written
+   between quotation marks is read back as exactly the path (fix b608b91) *)
+Theorem final_path_roundtrip : forall p rest, path_ok p ->
+  jstring (34 :: escape_final p ++ 34 :: rest) = Some (units p, rest).
+Proof. exact (fun p rest H => final_path_read p rest (proj1 H) (proj2 H)). Qed.
+Print Assumptions final_path_roundtrip.
 
 (* every text written the way esbuild writes its JSON (Layout.lj) is accepted
    by the RFC 8259 parser and denotes the value it was written from *)
-Theorem json_text_roundtrip : forall ascii rf rq t trailer,
-  (forall k i, rq k i = 34 :: rf k i ++ [34]) -> lj_ok ascii rf t -> all_ws trailer = true ->
-  parse_json (render ascii rq t ++ trailer) = Some (erase rf t).
+Theorem json_text_roundtrip : forall ascii sfok ru rq t trailer,
+  sf_reads sfok ru rq -> lj_ok sfok t -> all_ws trailer = true ->
+  parse_json (render ascii rq t ++ trailer) = Some (erase ru t).
 Proof. exact parse_render_all. Qed.
 Print Assumptions json_text_roundtrip.
 
@@ -89,12 +91,12 @@ Proof. exact (fun prefix nf nc ps H => break_clean prefix nf nc ps H _ (Nat.lt_s
 Print Assumptions clean_text_is_split_at_its_keys.
 
 (* the JSON piece of an output after substituteFinalPaths is the same tree with
-   the final paths between the quotation marks (whatever their length); it
-   parses to the description provided the paths need no escaping *)
+   the escaped final paths between the quotation marks (whatever their length
+   and characters); it parses to the description *)
 Theorem substitution_keeps_wellformed : forall mini ascii prefix nf nc pathOf c,
   forallb plain prefix = true ->
   clean prefix nf nc (pof [] (frags ascii (chunk_lj mini c))) ->
-  lj_ok ascii pathOf (chunk_lj mini c) ->
+  lj_ok (paths_ok pathOf) (chunk_lj mini c) ->
   chunk_final mini ascii prefix nf nc pathOf c = render ascii (rq_final pathOf) (chunk_lj mini c) /\
   parse_json (chunk_final mini ascii prefix nf nc pathOf c) = Some (chunk_jv pathOf c).
 Proof.
@@ -104,14 +106,6 @@ Proof.
 Qed.
 Print Assumptions substitution_keeps_wellformed.
 
-(* ... and without that proviso it is false: the path is not escaped *)
-Theorem substitution_keeps_wellformed_refuted :
-  exists mini ascii prefix nf nc pathOf ins outs,
-    forallb plain prefix = true /\
-    (forall pc, In pc outs -> clean prefix nf nc (pof [] (frags ascii (chunk_lj mini (snd pc))))) /\
-    parse_json (metafile_of mini ascii prefix nf nc pathOf ins outs) = None.
-Proof. exact substitution_refuted_wit. Qed.
-Print Assumptions substitution_keeps_wellformed_refuted.
 
 (* the "bytes" member is the number handed to jsonMetadataChunkCallback *)
 Theorem bytes_is_callback_argument : forall pathOf c,
@@ -124,7 +118,7 @@ Print Assumptions bytes_is_callback_argument.
 Theorem metafile_wellformed : forall mini ascii prefix nf nc pathOf ins outs,
   forallb plain prefix = true ->
   (forall pc, In pc outs -> clean prefix nf nc (pof [] (frags ascii (chunk_lj mini (snd pc))))) ->
-  lj_ok ascii pathOf (doc_lj mini ins outs) ->
+  lj_ok (paths_ok pathOf) (doc_lj mini ins outs) ->
   exists v, parse_json (metafile_of mini ascii prefix nf nc pathOf ins outs) = Some v.
 Proof.
   exact (fun mini ascii prefix nf nc pathOf ins outs Hp Hc Hok =>
@@ -139,7 +133,7 @@ Print Assumptions metafile_wellformed.
 Theorem metafile_faithful : forall mini ascii prefix nf nc pathOf ins outs,
   forallb plain prefix = true ->
   (forall pc, In pc outs -> clean prefix nf nc (pof [] (frags ascii (chunk_lj mini (snd pc))))) ->
-  lj_ok ascii pathOf (doc_lj mini ins outs) ->
+  lj_ok (paths_ok pathOf) (doc_lj mini ins outs) ->
   parse_json (metafile_of mini ascii prefix nf nc pathOf ins outs) = Some (doc_jv pathOf ins outs)
   /\ NoDup (map fst (dedup_first [] outs)).
 Proof.
